@@ -164,6 +164,12 @@ def expected_words(w, sb):
         if text == "~" or text.startswith("~/"):
             return [sb.home + text[1:]]
         return [text]
+    if kind == "brace-glob":
+        # the alternatives first, then each resulting word is a pattern of its own
+        out = []
+        for x in brace_expand(text):
+            out += glob_expand(x, sb.work)
+        return out
     if kind == "glob":
         if text.startswith("~/"):
             return glob_expand(sb.home + text[1:], sb.work)
@@ -340,6 +346,10 @@ def gen_word(rng):
     if k < 0.88:
         t = rng.choice(["*", "*.txt", "a*", "*.log", "sub/*", "*/x*", "*/*", "nomatch*", "*.none", "sub*/a", "a*a", "*b*"])
         return {"kind": "glob", "text": t, "feat": "pattern=" + t}
+    if k < 0.905:
+        # a brace group and a wildcard in one word
+        t = rng.choice(["*.{txt,log}", "{a,c}*", "sub/*.{log,txt}", "{sub,sub2}/*", "*.{none,txt}", "{a,b}*{a,b}", "{sub/,}*.txt"])
+        return {"kind": "brace-glob", "text": t, "feat": "pattern=" + t}
     if k < 0.96:
         t = rng.choice(["{a,b}", "{1..3}", "~", "*", "*.txt", "a{b,c}d", "~/x", "x y"])
         return {"kind": rng.choice(["sq", "dq"]), "text": t, "feat": "quoted"}
